@@ -24,10 +24,9 @@ TRUSTED = ["Coq 8.16.1 kernel", "extraction (ExtrOcamlBasic only; Z/positive/nat
            "statement layout and growth/shift statements in gen/Gen_VG.v)",
            "modelled, not verified: the element store below Vdetach/Load_vfile (Hputelement/Hgetelement/Hdeldd/"
            "HDreuse_tagref are a finite map ref -> bytes; see C01/C12), the TBBT (an ordered table), Vdata records "
-           "(a table ref -> name, class; see C07), vg->access"]
+           "(a table ref -> name, class; see C07)"]
 ASSUMPTIONS = ["domain: all Vgroup/Vdata handles are detached before the file is closed; Vdelete/VSdelete only of "
-               "objects without open handles (stale handles are C13); edits only through handles attached with 'w'; "
-               "tags/refs in 0..65535, names without NUL and <= 65535 bytes, fewer than 65535 members (C20); "
+               "objects without open handles (stale handles are C13); tags/refs in 0..65535, names without NUL; "
                "Vfind/Vfindclass/VSfind/VSfindclass not with the empty string; reference numbers of new objects are "
                "inputs (allocation is C12)"]
 
@@ -88,6 +87,33 @@ def gen_history(r, name, profile):
     def free_s():
         c = [s for s in range(6) if s not in sh.sh]
         return r.choice(c) if c else None
+
+    def writable_handles():
+        """handles through which an edit is expected to work (any handle of a writable vgroup); now and then
+        also the handles of read-only vgroups: those edits must be refused and change nothing"""
+        ws = [h for h, (l, wr) in sh.gh.items() if sh.objs[l]["acc"]]
+        if r.random() < 0.12:
+            ro = [h for h, (l, wr) in sh.gh.items() if not sh.objs[l]["acc"]]
+            if ro:
+                return [("ro", r.choice(ro))]
+        return ws
+
+    def ro_edit(h):
+        mem = sh.objs[sh.gh[h][0]]["members"]
+        c = r.randrange(6)
+        if c == 0:
+            L.append("addtagref %d %d %s" % (h, tagpick(), reftok()))
+        elif c == 1 and mem:
+            L.append("deltagref %d %d %s" % ((h,) + r.choice(mem)))
+        elif c == 2:
+            L.append("setname %d %s" % (h, hexs(rname(r) or b"x")))
+        elif c == 3:
+            L.append("setclass %d %s" % (h, hexs(rname(r) or b"x")))
+        elif c == 4:
+            L.append("insertvg %d %d" % (h, h))
+        else:
+            L.append("addmany %d 720 1 3 1" % h)
+        L.append("gettagrefs %d %d" % (h, len(mem) + 2))
 
     def reftok():
         x = r.random()
@@ -214,7 +240,7 @@ def gen_history(r, name, profile):
             lab = sh.next
             sh.next += 1
             L.append("vgnew %d =%d" % (h, lab))
-            sh.objs[lab] = dict(kind="g", alive=True, members=[], name=b"", cls=b"")
+            sh.objs[lab] = dict(kind="g", alive=True, members=[], name=b"", cls=b"", acc=True)
             sh.gh[h] = (lab, True)
         elif k == "att":
             h = free_g()
@@ -224,6 +250,9 @@ def gen_history(r, name, profile):
                 lab = r.choice(sh.alive("g"))
                 mode = r.choice(["w", "w", "w", "r"])
                 L.append("vgattach %d @%d %s" % (h, lab, mode))
+                # the access mode belongs to the vgroup, not to the handle: "w" once, writable for all handles
+                o = sh.objs[lab]
+                o["acc"] = (o["acc"] or mode == "w") if sh.attached(lab) else (mode == "w")
                 sh.gh[h] = (lab, mode == "w")
             else:
                 L.append("vgattach %d %s w" % (h, reftok()))     # mostly non-existing: must fail (or attach)
@@ -235,7 +264,10 @@ def gen_history(r, name, profile):
             L.append("vgdetach %d" % h)
             del sh.gh[h]
         elif k == "name":
-            ws = [h for h, (l, wr) in sh.gh.items() if wr]
+            ws = writable_handles()
+            if ws and isinstance(ws[0], tuple):
+                ro_edit(ws[0][1])
+                continue
             if not ws:
                 continue
             h = r.choice(ws)
@@ -246,7 +278,10 @@ def gen_history(r, name, profile):
             L.append("%s %d %s" % ("setname" if which == "name" else "setclass", h, hexs(nm)))
             sh.objs[sh.gh[h][0]][which] = nm
         elif k == "add":
-            ws = [h for h, (l, wr) in sh.gh.items() if wr]
+            ws = writable_handles()
+            if ws and isinstance(ws[0], tuple):
+                ro_edit(ws[0][1])
+                continue
             if not ws:
                 continue
             h = r.choice(ws)
@@ -258,7 +293,10 @@ def gen_history(r, name, profile):
             L.append("addtagref %d %d %s" % (h, t, rt))
             mem.append((t, rt))
         elif k == "many":
-            ws = [h for h, (l, wr) in sh.gh.items() if wr]
+            ws = writable_handles()
+            if ws and isinstance(ws[0], tuple):
+                ro_edit(ws[0][1])
+                continue
             if not ws:
                 continue
             h = r.choice(ws)
@@ -275,7 +313,10 @@ def gen_history(r, name, profile):
             L.append("addmany %d %d %d %d %d" % (h, t, base, cnt, step))
             mem.extend((t, str(base + i * step)) for i in range(cnt))
         elif k == "ins":
-            ws = [h for h, (l, wr) in sh.gh.items() if wr]
+            ws = writable_handles()
+            if ws and isinstance(ws[0], tuple):
+                ro_edit(ws[0][1])
+                continue
             if not ws:
                 continue
             h = r.choice(ws)
@@ -304,7 +345,10 @@ def gen_history(r, name, profile):
             if p not in mem:
                 mem.append(p)
         elif k == "del":
-            ws = [h for h, (l, wr) in sh.gh.items() if wr]
+            ws = writable_handles()
+            if ws and isinstance(ws[0], tuple):
+                ro_edit(ws[0][1])
+                continue
             if not ws:
                 continue
             h = r.choice(ws)
